@@ -5,12 +5,16 @@ exit discipline (DESIGN 3.2): anything that is not a refuted / unproved obligati
 well-formed query (lost anchor, compile error, unsupported construct, rlimit, a canary that
 verifies) is UNDECIDED, never a violation.
 """
+import tempfile, shutil
 import os, re, json, subprocess, time, hashlib
 import assemble, rsx
 from rsx import ExtractError
 
 VERIF = assemble.VERIF
-GEN = os.path.join(VERIF, "gen")
+# generated unit files go next to the evidence of THIS run: checks redirected with MILA_OUT (trypatch, mutant audit) must not
+# share /verif/gen with a concurrent run (seen: a canary failure attributed to the wrong function -> false alarm; a canary
+# reported as verified -> VACUITY, exit 2)
+GEN = os.environ.get("MILA_GEN") or os.path.join(os.environ.get("MILA_OUT", VERIF), "gen")
 
 VERIF_FAIL = [
     (r"postcondition not satisfied", "postcondition"),
@@ -269,9 +273,14 @@ def run_unit(name, unit_props, rlimit=None, extra_args=(), gen_dir=None, timeout
         res.wall_s = time.time() - t0
         return res
     text = unit.text()
-    path = os.path.join(gen_dir, name + ".rs")
+    # Verus reads the file from a directory private to this run (two concurrent checks that both run this unit would
+    # otherwise overwrite each other's file between the write and Verus' read: spans then belong to another text);
+    # the file is moved to gen_dir/<unit>.rs afterwards, for inspection only
+    final_path = os.path.join(gen_dir, name + ".rs")
+    priv = tempfile.mkdtemp(prefix=".run-%s-" % name, dir=gen_dir)
+    path = os.path.join(priv, name + ".rs")
     open(path, "w").write(text)
-    res.gen_path, res.gen_sha = path, hashlib.sha256(text.encode()).hexdigest()[:16]
+    res.gen_path, res.gen_sha = final_path, hashlib.sha256(text.encode()).hexdigest()[:16]
     res.rewrites, res.items = unit.rewrites, unit.items
     lm = assemble.LineMap(unit)
     res.trusted = scan_trusted(unit, text, body_index())
@@ -280,13 +289,19 @@ def run_unit(name, unit_props, rlimit=None, extra_args=(), gen_dir=None, timeout
     if rlimit:
         cmd += ["--rlimit", str(rlimit)]
     cmd += list(extra_args) + ["--", "--error-format=json"]
-    res.cmd = " ".join(cmd)
+    res.cmd = " ".join(cmd).replace(path, final_path)
     try:
-        p = subprocess.run(cmd, capture_output=True, text=True, timeout=timeout, cwd=gen_dir)
+        p = subprocess.run(cmd, capture_output=True, text=True, timeout=timeout, cwd=priv)
     except subprocess.TimeoutExpired:
         res.status, res.reason = "undecided", "verus timeout after %ds" % timeout
         res.wall_s = time.time() - t0
         return res
+    finally:
+        try:
+            os.replace(path, final_path)
+        except OSError:
+            pass
+        shutil.rmtree(priv, ignore_errors=True)
     res.wall_s = time.time() - t0
     try:
         out = json.loads(p.stdout)
